@@ -18,13 +18,13 @@ import (
 func init() { register("E2-shape", runE2) }
 
 type E2Scope struct {
-	Name     string   `json:"name"`
-	Props    []string `json:"props"`
-	Grammar  string   `json:"grammar"`
-	Listener string   `json:"listener"` // roots: the callbacks declared on this type
-	Funcs    []string `json:"funcs"`    // extra roots
-	Floor    int      `json:"floor"`    // minimum number of root functions
-	Trusted  map[string]string `json:"trusted"` // construct -> reason (facts outside the domain)
+	Name     string            `json:"name"`
+	Props    []string          `json:"props"`
+	Grammar  string            `json:"grammar"`
+	Listener string            `json:"listener"` // roots: the callbacks declared on this type
+	Funcs    []string          `json:"funcs"`    // extra roots
+	Floor    int               `json:"floor"`    // minimum number of root functions
+	Trusted  map[string]string `json:"trusted"`  // construct -> reason (facts outside the domain)
 }
 
 type kindset map[string]bool
@@ -68,13 +68,13 @@ func runE2(p *Program, sp *Spec, c *Collector) {
 		for _, f := range sc.Funcs {
 			fn := p.Func(f)
 			if fn == nil {
-				c.Fatal("E2: scope %s: %s does not resolve", sc.Name, f)
+				c.Anchor(sc.Props, "E2: scope %s: %s does not resolve", sc.Name, f)
 				continue
 			}
 			roots = append(roots, fn)
 		}
 		if len(roots) < sc.Floor {
-			c.Fatal("E2: scope %s: %d root functions, floor is %d", sc.Name, len(roots), sc.Floor)
+			c.Anchor(sc.Props, "E2: scope %s: %d root functions, floor is %d", sc.Name, len(roots), sc.Floor)
 		}
 		for _, r := range roots {
 			an.rootKind = map[string]kindset{}
@@ -1580,6 +1580,84 @@ func (an *shapeAn) checkSlice(sf *symFn, x *ssa.Slice, pc *Sym, chain string) {
 	}
 }
 
+// instantiations: if t or pc mention element variables that range over a literal array of constants, return the
+// substitutions (one per element); otherwise a single empty substitution.
+func constArrayInstances(terms ...*Sym) []map[string]*Sym {
+	binders := map[string]*Sym{}
+	for _, t := range terms {
+		if t == nil {
+			continue
+		}
+		t.walk(func(x *Sym) {
+			if x.Op == "elem" {
+				if coll := binderColls[x.Name]; coll != nil && coll.Op == "array" && len(coll.Kids) > 0 && len(coll.Kids) <= 16 {
+					allConst := true
+					for _, k := range coll.Kids {
+						if k.Op != "const" {
+							allConst = false
+						}
+					}
+					if allConst {
+						binders[x.Name] = coll
+					}
+				}
+			}
+		})
+	}
+	out := []map[string]*Sym{{}}
+	for name, coll := range binders {
+		var next []map[string]*Sym
+		for _, m := range out {
+			for _, k := range coll.Kids {
+				m2 := map[string]*Sym{}
+				for a, b := range m {
+					m2[a] = b
+				}
+				m2[name] = k
+				next = append(next, m2)
+			}
+		}
+		out = next
+		if len(out) > 64 {
+			break
+		}
+	}
+	return out
+}
+
+// foldLen: len("const") → constant, after substitution.
+func foldLen(t *Sym) *Sym {
+	if t == nil {
+		return nil
+	}
+	if t.Op == "len" && len(t.Kids) == 1 {
+		k := foldLen(t.Kids[0])
+		if s, ok := symStr(k); ok {
+			return sInt(int64(len(s)))
+		}
+	}
+	if len(t.Kids) == 0 {
+		return t
+	}
+	n := *t
+	n.str = ""
+	n.Kids = make([]*Sym, len(t.Kids))
+	for i, k := range t.Kids {
+		n.Kids[i] = foldLen(k)
+	}
+	if n.Op == "bin" && (n.Name == "+" || n.Name == "-") {
+		a, ok1 := symIntC(n.Kids[0])
+		b, ok2 := symIntC(n.Kids[1])
+		if ok1 && ok2 {
+			if n.Name == "+" {
+				return sInt(a + b)
+			}
+			return sInt(a - b)
+		}
+	}
+	return &n
+}
+
 func (an *shapeAn) checkIndex(sf *symFn, xv, iv ssa.Value, at ssa.Instruction, pc *Sym, chain string) {
 	// arrays behind pointers (composite literals / varargs) are exact
 	if pt, ok := xv.Type().Underlying().(*types.Pointer); ok {
@@ -1605,28 +1683,44 @@ func (an *shapeAn) checkIndex(sf *symFn, xv, iv ssa.Value, at ssa.Instruction, p
 	an.nOps++
 	construct := "index:" + an.p.FuncKey(sf.fn) + " " + clip(base.String(), 140) + "[" + clip(idx.String(), 60) + "]"
 	pos := an.p.InstrPos(at)
-	need := int64(-1)
-	if c, ok := symIntC(idx); ok {
-		need = c + 1
-	} else if k, ok := lenMinus(idx, base.String()); ok && k >= 1 {
-		need = k
+	bad := ""
+	decidedAll := true
+	for _, inst := range constArrayInstances(idx, base, pc) {
+		base1, idx1, pc1 := base, idx, pc
+		if len(inst) > 0 {
+			base1, idx1, pc1 = foldLen(base.subst(inst)), foldLen(idx.subst(inst)), foldLen(pc.subst(inst))
+		}
+		need := int64(-1)
+		if c, ok := symIntC(idx1); ok {
+			need = c + 1
+		} else if k, ok := lenMinus(idx1, base1.String()); ok && k >= 1 {
+			need = k
+		}
+		if need < 0 {
+			decidedAll = false
+			continue
+		}
+		an.assignments(pc1, subjectsOf(base1), func(fs *factSet) bool {
+			if l := an.lenLower(base1, fs); l < need {
+				bad = fmt.Sprintf("needs len >= %d, the path only guarantees len >= %d (%s)", need, l, an.witness(base1, fs))
+				return false
+			}
+			return true
+		})
+		if bad != "" {
+			break
+		}
 	}
-	if need < 0 {
+	if bad == "" && !decidedAll {
 		an.ob("E2.index-bound", construct, Note, "index is neither a constant nor len-relative; not decided", pos, false)
 		return
 	}
-	bad := ""
-	an.assignments(pc, subjectsOf(base), func(fs *factSet) bool {
-		if l := an.lenLower(base, fs); l < need {
-			bad = fmt.Sprintf("needs len >= %d, the path only guarantees len >= %d (%s)", need, l, an.witness(base, fs))
-			return false
-		}
-		return true
-	})
+	need := int64(0)
+	_ = need
 	if bad != "" {
 		an.ob("E2.index-bound", construct, Violated, "index can be out of range: "+bad+" ["+chain+"]", pos, false)
 	} else {
-		an.ob("E2.index-bound", construct, Discharged, fmt.Sprintf("len >= %d on every path reaching the index expression", need), pos, true)
+		an.ob("E2.index-bound", construct, Discharged, "the length needed by the index is guaranteed on every path reaching it", pos, true)
 	}
 }
 
